@@ -312,3 +312,195 @@ Proof.
               _ _ _ _ _ _ _ _ Ed ltac:(rewrite Hif, E4; exact P3) How) as [Hb _].
   rewrite Hb, Htk, E5. reflexivity.
 Qed.
+
+(* ---------- liquidations, funding settlements, deposits and withdrawals pay the fee pool nothing ---------- *)
+From MP.Proofs Require Import LiqTxFacts.
+
+Lemma liquidate_reply_avoids a w i o w' subs :
+  liquidate_reply w i o = Ok (w', subs) -> (forall l, e_liq (w_eng w) = Some l -> l <> a) -> e_ifund (ec (w_eng w)) <> a ->
+  Forall (avoids a) subs.
+Proof.
+  intros H Hl Hi. unfold liquidate_reply in H.
+  destruct (e_liq (w_eng w)) as [lq|] eqn:Eliq; [|unfold need_liq in H; rewrite Eliq in H; minv H; discriminate].
+  pose proof (Hl lq eq_refl) as Hlq.
+  unfold need_liq in H. rewrite Eliq in H. arm H.
+  all: avoid_goal.
+Qed.
+
+Lemma partial_liquidation_reply_avoids a w i o w' subs :
+  partial_liquidation_reply w i o = Ok (w', subs) -> (forall l, e_liq (w_eng w) = Some l -> l <> a) -> e_ifund (ec (w_eng w)) <> a ->
+  Forall (avoids a) subs.
+Proof.
+  intros H Hl Hi. unfold partial_liquidation_reply in H.
+  destruct (e_liq (w_eng w)) as [lq|] eqn:Eliq; [|unfold need_liq in H; rewrite Eliq in H; minv H; discriminate].
+  pose proof (Hl lq eq_refl) as Hlq.
+  unfold need_liq in H. rewrite Eliq in H. arm H.
+  all: avoid_goal.
+Qed.
+
+Lemma pay_funding_reply_avoids a w pf v w' subs :
+  pay_funding_reply w pf v = Ok (w', subs) -> e_ifund (ec (w_eng w)) <> a -> Forall (avoids a) subs.
+Proof.
+  intros H Hi. unfold pay_funding_reply, append_cumulative_premium_fraction in H. arm H.
+  all: avoid_goal.
+Qed.
+
+Definition pend_zero (a : addr) (w : world) (m : msg) (id : Z) (x : Z) : Prop :=
+  x = 0 /\ is_swap m = true /\ e_ifund (ec (w_eng w)) <> a /\ (forall l, e_liq (w_eng w) = Some l -> l <> a) /\
+  (id = LIQUIDATION_ID \/ id = PARTIAL_LIQUIDATION_ID \/ id = PAY_FUNDING_ID).
+
+Lemma pend_zero_closed a : pend_closed (pend_zero a).
+Proof. intros w w1 m id x (E1 & _ & _) H. unfold pend_zero in *. rewrite E1. exact H. Qed.
+
+Lemma pend_zero_pair a w m id x w1 ev w2 subs :
+  pend_zero a w m id x -> exec_simple w A_ENGINE m = Ok (w1, ev) ->
+  contract_reply w1 A_ENGINE id (Ok ev) = Ok (w2, subs) -> owed (pend_zero a) a w2 subs x.
+Proof.
+  intros (-> & Hsw & Hi & Hl & Hid) Hex Hr.
+  assert (He : w_eng w1 = w_eng w).
+  { destruct m; try discriminate Hsw; cbn [exec_simple] in Hex; minv Hex; inv_ok; reflexivity. }
+  rewrite <- He in Hi, Hl.
+  assert (Hav : Forall leafy subs /\ Forall (avoids a) subs).
+  { unfold contract_reply, engine_reply in Hr. destruct (A_ENGINE =? A_ENGINE); [|discriminate].
+    destruct ev as [i o|pf v|]; [| |discriminate].
+    - destruct Hid as [ -> | [ -> | -> ] ].
+      + assert (Hr' : liquidate_reply w1 i o = Ok (w2, subs)) by exact Hr.
+        split; [exact (liquidate_reply_leafy _ _ _ _ _ Hr')|exact (liquidate_reply_avoids a _ _ _ _ _ Hr' Hl Hi)].
+      + assert (Hr' : partial_liquidation_reply w1 i o = Ok (w2, subs)) by exact Hr.
+        split; [exact (partial_liquidation_reply_leafy _ _ _ _ _ Hr')|exact (partial_liquidation_reply_avoids a _ _ _ _ _ Hr' Hl Hi)].
+      + discriminate Hr.
+    - destruct Hid as [ -> | [ -> | -> ] ]; try discriminate Hr.
+      assert (Hr' : pay_funding_reply w1 pf v = Ok (w2, subs)) by exact Hr.
+      split; [exact (pay_funding_reply_leafy _ _ _ _ _ Hr')|exact (pay_funding_reply_avoids a _ _ _ _ _ Hr' Hi)]. }
+  destruct Hav as [Hl1 Hav]. apply owed_leafy; [exact Hl1|]. destruct (avoids_nothing a subs Hav) as [-> ->]. reflexivity.
+Qed.
+
+Lemma attach_funds_third w s funds w0 a :
+  attach_funds w s A_ENGINE funds = Ok w0 -> a <> s -> a <> A_ENGINE ->
+  bal (w_tok w0) a = bal (w_tok w) a /\ w_if w0 = w_if w /\ w_eng w0 = w_eng w.
+Proof.
+  intros Ea H1 H2. unfold attach_funds in Ea. destruct (funds =? 0); [inv_ok; auto|]. minv Ea. inv_ok. cbn [w_if w_tok w_eng set_tok]. split; [|split; reflexivity].
+  match goal with Hx : tok_move _ _ _ _ = Ok _ |- _ => rewrite (tok_move_bal _ _ _ _ _ a Hx) end.
+  unfold ind. destruct (Z.eqb_spec a A_ENGINE); [contradiction|]. destruct (Z.eqb_spec a s); [contradiction|]. lia.
+Qed.
+
+(* END TO END: a Liquidate (full or partial) leaves the fee pool's balance as it was *)
+Theorem liquidate_tx_no_fee f w s v t lim funds w' :
+  exec_op f w (OEngine s (ELiquidate v t lim) funds) = Ok w' ->
+  let pool := e_feepool (ec (w_eng w)) in
+  pool <> A_ENGINE -> pool <> A_IFUND -> pool <> if_engine (w_if w) -> e_ifund (ec (w_eng w)) <> pool -> s <> pool ->
+  bal (w_tok w') pool = bal (w_tok w) pool.
+Proof.
+  intros H pool P1 P2 P3 P4 P5.
+  cbn [exec_op] in H. revert H. generalize FUEL. intros fuel H.
+  destruct (attach_funds w s A_ENGINE funds) as [w0|] eqn:Ea; [|discriminate]. cbn [bind] in H.
+  cbn [engine_execute] in H.
+  destruct (e_liquidate w0 s v t lim) as [[w1 subs]|] eqn:Eo; [|discriminate]. cbn [bind fst snd] in H.
+  destruct (dispatch fuel f w1 0 A_ENGINE subs) as [[wf nf]|] eqn:Ed; [|discriminate]. cbn [bind fst] in H. inv_ok.
+  destruct (attach_funds_third _ _ _ _ pool Ea ltac:(congruence) P1) as (B0 & I0 & E0).
+  pose proof (liquidate_branches _ _ _ _ _ _ _ Eo) as Hbr. cbv zeta in Hbr.
+  assert (Hshape : exists msg, subs = [msg] /\ sm_reply msg = RAlways /\ is_swap (sm_msg msg) = true /\
+            (sm_id msg = LIQUIDATION_ID \/ sm_id msg = PARTIAL_LIQUIDATION_ID \/ sm_id msg = PAY_FUNDING_ID) /\
+            ec (w_eng w1) = ec (w_eng w0) /\ e_liq (w_eng w1) = Some s /\ w_tok w1 = w_tok w0 /\ w_if w1 = w_if w0).
+  { destruct Hbr as [_ [[-> ->] | (r & Hpl & -> & ->)]].
+    - eexists. split; [reflexivity|]. unfold internal_close_position, swap_output_msg. cbn [fst snd sm_reply sm_msg sm_id is_swap w_eng set_eng eng_set_tmp eng_set_liq ec e_liq w_tok w_if].
+      repeat split; auto.
+    - unfold partial_liquidation in Hpl. minv Hpl. inv_ok. eexists. split; [reflexivity|].
+      unfold swap_output_msg. cbn [fst snd sm_reply sm_msg sm_id is_swap w_eng set_eng eng_set_tmp eng_set_liq ec e_liq w_tok w_if].
+      repeat split; auto. }
+  destruct Hshape as (msg & -> & Hra & Hsw & Hid & Hec & Hlq & Htk & Hif).
+  assert (How : owed (pend_zero pool) pool w1 [msg] 0).
+  { cbn [owed]. rewrite Hra. cbn [wants_ok]. split; [reflexivity|]. split; [reflexivity|].
+    split; [reflexivity|]. split; [exact Hsw|]. rewrite Hec, E0. split; [exact P4|]. split; [|exact Hid].
+    intros l Hl. rewrite Hlq in Hl. injection Hl as <-. exact P5. }
+  destruct (dispatch_owed (pend_zero pool) pool P1 P2 (pend_zero_closed pool)
+              (fun w m id x H => match H with conj _ (conj Hs _) => Hs end)
+              (fun w m id x w1 ev w2 subs _ => pend_zero_pair pool w m id x w1 ev w2 subs)
+              _ _ _ _ _ _ _ _ Ed ltac:(rewrite Hif, I0; exact P3) How) as [Hb _].
+  rewrite Hb, Htk, B0. lia.
+Qed.
+
+(* END TO END: a PayFunding settlement leaves the fee pool's balance as it was *)
+Theorem pay_funding_tx_no_fee f w s v funds w' :
+  exec_op f w (OEngine s (EPayFunding v) funds) = Ok w' ->
+  let pool := e_feepool (ec (w_eng w)) in
+  pool <> A_ENGINE -> pool <> A_IFUND -> pool <> if_engine (w_if w) -> e_ifund (ec (w_eng w)) <> pool -> s <> pool ->
+  (forall l, e_liq (w_eng w) = Some l -> l <> pool) ->
+  bal (w_tok w') pool = bal (w_tok w) pool.
+Proof.
+  intros H pool P1 P2 P3 P4 P5 P6.
+  cbn [exec_op] in H. revert H. generalize FUEL. intros fuel H.
+  destruct (attach_funds w s A_ENGINE funds) as [w0|] eqn:Ea; [|discriminate]. cbn [bind] in H.
+  cbn [engine_execute] in H.
+  destruct (e_pay_funding w0 v) as [[w1 subs]|] eqn:Eo; [|discriminate]. cbn [bind fst snd] in H.
+  destruct (dispatch fuel f w1 0 A_ENGINE subs) as [[wf nf]|] eqn:Ed; [|discriminate]. cbn [bind fst] in H. inv_ok.
+  destruct (attach_funds_third _ _ _ _ pool Ea ltac:(congruence) P1) as (B0 & I0 & E0).
+  unfold e_pay_funding in Eo. minv Eo. inv_ok.
+  assert (How : owed (pend_zero pool) pool w1 [mkSub (MSettleFunding v) PAY_FUNDING_ID RAlways] 0).
+  { cbn [owed sm_reply wants_ok sm_msg sm_id]. split; [reflexivity|]. split; [reflexivity|].
+    split; [reflexivity|]. split; [reflexivity|]. rewrite E0. split; [exact P4|]. split; [exact P6|]. right. right. reflexivity. }
+  destruct (dispatch_owed (pend_zero pool) pool P1 P2 (pend_zero_closed pool)
+              (fun w m id x H => match H with conj _ (conj Hs _) => Hs end)
+              (fun w m id x w1 ev w2 subs _ => pend_zero_pair pool w m id x w1 ev w2 subs)
+              _ _ _ _ _ _ _ _ Ed ltac:(rewrite I0; exact P3) How) as [Hb _].
+  rewrite Hb, B0. lia.
+Qed.
+
+(* END TO END: DepositMargin and WithdrawMargin leave the fee pool's balance as it was *)
+Lemma leafy_avoids_tx f fuel w1 subs wf nf a :
+  dispatch fuel f w1 0 A_ENGINE subs = Ok (wf, nf) -> Forall leafy subs -> Forall (avoids a) subs ->
+  a <> A_ENGINE -> a <> A_IFUND -> a <> if_engine (w_if w1) ->
+  bal (w_tok wf) a = bal (w_tok w1) a.
+Proof.
+  intros Ed Hl Hav P1 P2 P3.
+  destruct (dispatch_owed (pend_zero a) a P1 P2 (pend_zero_closed a)
+              (fun w m id x H => match H with conj _ (conj Hs _) => Hs end)
+              (fun w m id x w1 ev w2 subs _ => pend_zero_pair a w m id x w1 ev w2 subs)
+              _ _ _ _ _ _ _ 0 Ed P3) as [Hb _].
+  - apply owed_leafy; [exact Hl|]. destruct (avoids_nothing a subs Hav) as [-> ->]. reflexivity.
+  - rewrite Hb. lia.
+Qed.
+
+Theorem deposit_margin_tx_no_fee f w t v amount funds w' :
+  exec_op f w (OEngine t (EDepositMargin v amount) funds) = Ok w' ->
+  let pool := e_feepool (ec (w_eng w)) in
+  pool <> A_ENGINE -> pool <> A_IFUND -> pool <> if_engine (w_if w) -> t <> pool ->
+  bal (w_tok w') pool = bal (w_tok w) pool.
+Proof.
+  intros H pool P1 P2 P3 P5.
+  cbn [exec_op] in H. revert H. generalize FUEL. intros fuel H.
+  destruct (attach_funds w t A_ENGINE funds) as [w0|] eqn:Ea; [|discriminate]. cbn [bind] in H.
+  cbn [engine_execute] in H.
+  destruct (e_deposit_margin w0 t v amount funds) as [[w1 subs]|] eqn:Eo; [|discriminate]. cbn [bind fst snd] in H.
+  destruct (dispatch fuel f w1 0 A_ENGINE subs) as [[wf nf]|] eqn:Ed; [|discriminate]. cbn [bind fst] in H. inv_ok.
+  destruct (attach_funds_third _ _ _ _ pool Ea ltac:(congruence) P1) as (B0 & I0 & E0).
+  assert (Hs : w_tok w1 = w_tok w0 /\ w_if w1 = w_if w0) by (unfold e_deposit_margin in Eo; arm Eo; split; reflexivity).
+  destruct Hs as [Htk Hif].
+  pose proof (deposit_margin_spec _ _ _ _ _ _ _ Eo) as (p & _ & _ & _ & _ & Hm).
+  assert (Hsub : Forall leafy subs /\ Forall (avoids pool) subs).
+  { destruct (t_native (w_tok w0)); [destruct Hm as [_ ->]; split; constructor|].
+    subst subs. split; (constructor; [|constructor]); [apply noreply_leafy_transfer_from|apply avoids_transfer_from; congruence]. }
+  destruct Hsub as [Hl Hav].
+  rewrite (leafy_avoids_tx _ _ _ _ _ _ pool Ed Hl Hav P1 P2 ltac:(rewrite Hif, I0; exact P3)). rewrite Htk. exact B0.
+Qed.
+
+Theorem withdraw_margin_tx_no_fee f w t v amount funds w' :
+  exec_op f w (OEngine t (EWithdrawMargin v amount) funds) = Ok w' ->
+  let pool := e_feepool (ec (w_eng w)) in
+  pool <> A_ENGINE -> pool <> A_IFUND -> pool <> if_engine (w_if w) -> t <> pool ->
+  bal (w_tok w') pool = bal (w_tok w) pool.
+Proof.
+  intros H pool P1 P2 P3 P5.
+  cbn [exec_op] in H. revert H. generalize FUEL. intros fuel H.
+  destruct (attach_funds w t A_ENGINE funds) as [w0|] eqn:Ea; [|discriminate]. cbn [bind] in H.
+  cbn [engine_execute] in H.
+  destruct (e_withdraw_margin w0 t v amount) as [[w1 subs]|] eqn:Eo; [|discriminate]. cbn [bind fst snd] in H.
+  destruct (dispatch fuel f w1 0 A_ENGINE subs) as [[wf nf]|] eqn:Ed; [|discriminate]. cbn [bind fst] in H. inv_ok.
+  destruct (attach_funds_third _ _ _ _ pool Ea ltac:(congruence) P1) as (B0 & I0 & E0).
+  assert (Hs : w_tok w1 = w_tok w0 /\ w_if w1 = w_if w0 /\ Forall leafy subs /\ Forall (avoids pool) subs).
+  { unfold e_withdraw_margin in Eo. arm Eo.
+    match goal with Hw : withdraw _ _ _ _ _ = Ok _ |- _ =>
+      split; [reflexivity|split; [reflexivity|split; [exact (leafy_withdraw _ _ _ _ _ _ _ Hw)|exact (avoids_withdraw _ _ _ _ _ _ _ _ Hw P5)]]] end. }
+  destruct Hs as (Htk & Hif & Hl & Hav).
+  rewrite (leafy_avoids_tx _ _ _ _ _ _ pool Ed Hl Hav P1 P2 ltac:(rewrite Hif, I0; exact P3)). rewrite Htk. exact B0.
+Qed.
